@@ -353,10 +353,10 @@ var sessionTwo = map[string]string{
 	"C10": " Added in session 2: no vault call from inside a loop consuming a vault stream (R1); End stores the plan after its children, failure verdicts of fix* are sticky, children are classified after repair, the cont-check channels are made on the Recovery path, BlockPostChecks/BlockDeferredChecks never pass over a present group that is already Failed (R3). Every self-edge of ExecuteBlock shrinks the block queue; launch-loop, fixSeq, fixPlan-Completed and Runner.Start rules (R3).",
 	"C11": " Added in session 2: the stale plan is written after everything it contains (R3). lastUpdate reads the Start and End of every attempt (R2).",
 	"C12": " Added in session 2: the job that runs the plan is submitted under a context made in runPlan and a refused Start reaches no mutating vault method (R1); the walkers never hand a nil child on (R4); (R7) nil-then-dereference contradiction rule and index-past-end lint over every package the five API calls reach.",
-	"C13": " Added in session 2: a stored cosmos document is decoded into a value made for that call (R6); (R8) the create transaction watches the error Create returns.",
+	"C13": " Added in session 2: a stored cosmos document is decoded into a value made for that call (R6); (R8) the create transaction watches the error Create returns. (R9) error discipline over everything Read, Exists and the Update* entry points of both vaults reach: every error-producing call site returns, wraps or classifies its error.",
 	"C14": " Added in session 2: when the transaction watches a variable that is not the named result every return after the registration returns it (R1); no retry operation adds to, or hands on by address, a batch made outside it (R5). The response of every ExecuteTransactionalBatch is examined (R5).",
 	"C15": " Added in session 2 (R5): a cosmos retry operation uses the context its loop runs under; cosmosdb.New assigns a component's swarm before copying the component. The error of Pool.Submit is tested in Search/List of both vaults (R3).",
-	"C16": " Added in session 2 (R1): request defaults precede Validate; an action arriving with a register is refused at once.",
+	"C16": " Added in session 2 (R1): request defaults precede Validate; an action arriving with a register is refused at once. (R9) error discipline over the admission path: Submit, Start, the Validate chain, the start validators and Register.",
 	"C17": " Added in session 2 (R1): an embedded struct is examined whatever the name of its type; a struct value is exempted from scrubbing only by the time.Time test, applied to the dispatched value.",
 	"C18": " Added in session 2: append counts as a copy only with a destination that cannot lend its array (R2); (R5) the time.Time exemption of the scrub pass tests the dispatched value.",
 	"C20": " Added in session 2 (R1): every error Plan() hands out, and every error Reset() hands out after touching the builder, is b.err or the result of setErr.",
